@@ -36,6 +36,7 @@ class PureFn:
                 self.fp_params[nm] = None
             self.params.append(nm)
         # function-pointer typedefs (bign_deep_i) are not visible in the spelling: detect by use
+        self.blocklocal = set()
         self.locals = set(self.params)      # parameters may be re-assigned (m = B_OF_W(m))
         self.tr = ExprTr(tree, fn.file, self.resolve)
         self.va = False
@@ -86,8 +87,9 @@ class PureFn:
                 if init:
                     if strip(init[0])["kind"] == "VAArgExpr":
                         out.append(("vaarg", v["name"]))
+                        self.blocklocal.add(v["name"])
                     else:
-                        out.append(("let", v["name"], self.tr.expr(init[0])))
+                        out.append(("let", v["name"], self.tr.expr(init[0]), "decl"))
             return out
         if k == "BinaryOperator" and n["opcode"] == "=":
             l = strip(n["inner"][0])
@@ -203,7 +205,7 @@ class PureFn:
 
     def E(self, e):
         e = self.tr.finish(e)
-        self.calls |= {c[5:] if c.startswith("some ") else c for c in calls_of(e)}
+        self.calls |= calls_of(e)
         return self.lean(e)
 
     def lean(self, e):
@@ -270,7 +272,8 @@ class PureFn:
                 # early return: continue with `rest` in both arms
                 return (pad + "if %s%s then\n" % ("h%d : " % ind if self.recursive else "", self.condE(s[1])) + self.render_stmts(s[2] + rest, ind + 1, tail) + "\n" +
                         pad + "else\n" + self.render_stmts(s[3] + rest, ind + 1, tail))
-            vs = self.assigned(s[2]) + [v for v in self.assigned(s[3]) if v not in self.assigned(s[2])]
+            vs = [v for v in self.assigned(s[2]) if not self.declared_in(s[2], v)]
+            vs += [v for v in self.assigned(s[3]) if v not in vs and not self.declared_in(s[3], v)]
             if not vs:
                 return self.render_stmts(rest, ind, tail)
             tup = self.tuple(vs)
@@ -304,13 +307,14 @@ class PureFn:
         raise Unhandled("render " + s[0])
 
     def declared_in(self, body, v):
-        return False
+        """v is declared (with initialiser) at the top level of this block: block-local"""
+        return any(s[0] == "let" and s[1] == v and len(s) > 3 for s in body)
 
     def uses(self, stmts):
         acc = set()
         for s in stmts:
             if s[0] in ("let", "ret"):
-                free_vars(s[-1], acc)
+                free_vars(s[2] if s[0] == "let" else s[1], acc)
             elif s[0] == "if":
                 free_vars(s[1], acc); acc |= self.uses(s[2]) | self.uses(s[3])
             elif s[0] == "for":
@@ -357,7 +361,7 @@ class PureFn:
     def walk_exprs(self, stmts):
         for s in stmts:
             if s[0] in ("let", "ret"):
-                yield s[-1]
+                yield (s[2] if s[0] == "let" else s[1])
             elif s[0] == "if":
                 yield s[1]
                 yield from self.walk_exprs(s[2]); yield from self.walk_exprs(s[3])
@@ -401,7 +405,6 @@ def translate_all(tree):
             sizeofs |= p.translate()
             for e in p.walk_exprs(p.stmts):
                 for c in calls_of(e):
-                    c = c[5:] if c.startswith("some ") else c
                     if c not in seen:
                         todo.append(c)
                 p.find_fp(e)
@@ -489,3 +492,53 @@ if __name__ == "__main__":
         sys.stderr.write("unhandled:%s:%s\n" % (k, v))
     for e in tree.errors:
         sys.stderr.write("tu-error:%s\n" % e)
+
+
+def gen_c(tree, items):
+    """C files that call the REAL size functions by name (value correspondence with the Lean
+    translation).  Files with static size functions are #included (one generated TU each);
+    the other functions are reached through explicit prototypes.  -> {filename: text}"""
+    by_file = {}
+    for k, p, t in items:
+        if p.fp_params:
+            continue
+        by_file.setdefault(p.fn.file, []).append((k, p))
+    out, regs = {}, []
+    ext = []
+    for f, lst in sorted(by_file.items()):
+        if any(p.fn.static for _, p in lst):
+            stem = "c07v_" + re.sub(r"\W", "_", f[4:-2])
+            body = ['#include "%s"' % f[4:], "#include <string.h>",
+                    "int %s(const char* f, const size_t* a, int n, size_t* r)\n{" % stem]
+            for k, p in lst:
+                body.append(_c_case(k, p))
+            body.append("\treturn 0;\n}\n")
+            out[stem + ".c"] = "\n".join(body)
+            regs.append(stem)
+        else:
+            ext += lst
+    body = ["#include <stddef.h>", "#include <string.h>"]
+    for k, p in ext:
+        body.append("extern size_t %s(%s);" % (p.fn.name, ", ".join(["size_t"] * len(p.params) + (["..."] if p.fn.variadic else [])) or "void"))
+    for r in regs:
+        body.append("int %s(const char* f, const size_t* a, int n, size_t* r);" % r)
+    body.append("int c07v_eval(const char* f, const size_t* a, int n, size_t* r)\n{")
+    for k, p in ext:
+        body.append(_c_case(k, p))
+    for r in regs:
+        body.append("\tif (%s(f, a, n, r)) return 1;" % r)
+    body.append("\treturn 0;\n}\n")
+    out["c07v_main.c"] = "\n".join(body)
+    return out
+
+
+def _c_case(k, p):
+    n = len(p.params)
+    args = ["a[%d]" % i for i in range(n)]
+    if p.fn.variadic:
+        # all varargs are size_t; the count parameter is the last fixed one (checked by the sweep generator)
+        cases = []
+        for extra in range(0, 5):
+            cases.append("if (n == %d) { *r = %s(%s); return 1; }" % (n + extra, p.fn.name, ", ".join(args + ["a[%d]" % (n + j) for j in range(extra)])))
+        return "\tif (strcmp(f, \"%s\") == 0) { %s }" % (k, " ".join(cases))
+    return "\tif (strcmp(f, \"%s\") == 0 && n == %d) { *r = %s(%s); return 1; }" % (k, n, p.fn.name, ", ".join(args))
